@@ -444,27 +444,84 @@ Example pca_projector_example :
 Proof. vm_compute. split; reflexivity. Qed.
 
 (* ====================================================================== *)
-(* machine-integer findings in labs/mask.py (known_findings.json)          *)
+(* machine-integer arithmetic in labs/mask.py (two repaired defects)        *)
 (* ====================================================================== *)
 From NV.C19 Require Import MaskFindings.
 
-(* (18) FINDING: compute_mask_sessions sums the session masks in int8: with 128 sessions a voxel
-   contained in every mask has the wrapped count -128 and is dropped, although 128 > threshold*n. *)
-Theorem sessions_vote_count_refuted :
+(* (18) compute_mask_sessions (after 6617727: votes summed in the 64-bit platform integer): for
+   0/1 session masks and fewer than 2^62 sessions the accumulated count is the exact count. *)
+Theorem sessions_vote_count_exact :
+  forall votes : list Z,
+  Forall (fun v => (0 <= v <= 1)%Z) votes -> (Z.of_nat (length votes) < 2 ^ 62)%Z ->
+  votes_wrapped 64 votes = votes_exact votes.
+Proof. exact votes_platform_int_exact_proof. Qed.
+Print Assumptions sessions_vote_count_exact.
+
+(* the repaired defect, for the record: an int8 sum wraps at 128 votes and drops the voxel *)
+Theorem sessions_vote_count_before_fix :
   exists votes : list Z,
     Forall (fun v => v = 1%Z) votes /\ length votes = 128%nat /\
-    votes_exact votes = 128%Z /\ votes_int8 votes = (-128)%Z /\
+    votes_exact votes = 128%Z /\ votes_wrapped 8 votes = (-128)%Z /\
     intersect_sel (inject_Z 64) [votes_exact votes] = [true] /\
-    intersect_sel (inject_Z 64) [votes_int8 votes] = [false].
-Proof. exact sessions_votes_refuted_proof. Qed.
-Print Assumptions sessions_vote_count_refuted.
+    intersect_sel (inject_Z 64) [votes_wrapped 8 votes] = [false].
+Proof. exact sessions_votes_before_fix_proof. Qed.
+Print Assumptions sessions_vote_count_before_fix.
 
-(* (19) FINDING: compute_mask on a uint8 volume takes the mid-point sum in uint8: for the gap
-   190 -> 199 the threshold becomes 133/2 (below both values) instead of 389/2. *)
-Theorem compute_mask_uint8_midpoint_refuted :
+(* (19) compute_mask on integer data (after 4d1b43b: sorted values converted to float64, exact
+   below 2^52): the mid-point threshold taken at a gap u < v excludes u and includes v. *)
+Theorem compute_mask_midpoint_separates :
+  forall u v : Z, (u < v)%Z ->
+  Qle_bool (midpoint_exact u v) (inject_Z u) = false /\ Qle_bool (midpoint_exact u v) (inject_Z v) = true.
+Proof. exact midpoint_separates_proof. Qed.
+Print Assumptions compute_mask_midpoint_separates.
+
+Theorem compute_mask_uint8_midpoint_before_fix :
   exists u v : Z, (0 <= u <= 255)%Z /\ (0 <= v <= 255)%Z /\ (u < v)%Z /\
-    Qle_bool (midpoint_exact u v) (inject_Z u) = false /\ Qle_bool (midpoint_exact u v) (inject_Z v) = true /\
     Qle_bool (midpoint_uint8 u v) (inject_Z u) = true /\
     mask_threshold [inject_Z 190; inject_Z 199; inject_Z 190; inject_Z 199] (1 # 4) (3 # 4) false = Some (midpoint_exact u v).
-Proof. exact midpoint_uint8_refuted_proof. Qed.
-Print Assumptions compute_mask_uint8_midpoint_refuted.
+Proof. exact midpoint_uint8_before_fix_proof. Qed.
+Print Assumptions compute_mask_uint8_midpoint_before_fix.
+
+(* ====================================================================== *)
+(* compute_mask post-processing: largest component, then opening            *)
+(* ====================================================================== *)
+From NV.C19 Require Import MorphModel MorphProofs.
+
+(* (20) binary opening (k erosions then k dilations, face-neighbour structuring element, outside = 0)
+   never adds a voxel: for every number of dimensions, shape, k and mask - on index functions and on
+   the tabulated executable model. *)
+Theorem opening_anti_extensive :
+  forall (s : list nat) (k : nat),
+  (forall X : mfun, sub (opening_fn s k X) X) /\
+  (forall l : list bool, sub (mask_of_flat s (opening_flat s k l)) (mask_of_flat s l)).
+Proof. intros s k. split; [apply opening_sub|apply opening_flat_sub]. Qed.
+Print Assumptions opening_anti_extensive.
+
+(* (21) compute_mask(cc=True, opening=k) = opening applied to the component selected by largest_cc
+   from the THRESHOLDED volume; hence every voxel of the result lies in that largest component
+   (which is characterised by largest_cc_spec); with opening=0 the post-processing is largest_cc alone. *)
+Theorem compute_mask_within_largest_component :
+  forall (s : list nat) (mask : list bool) (labels : list nat) (nb k : nat) (r c : list bool),
+  postprocess s mask true labels nb k = Some r ->
+  largest_cc_sel mask labels nb = Some c ->
+  sub (mask_of_flat s r) (mask_of_flat s c)
+  /\ postprocess s mask true labels nb 0 = Some c.
+Proof.
+  intros s mask labels nb k r c H Hc. split.
+  - exact (postprocess_within_component s mask labels nb k r c H Hc).
+  - rewrite postprocess_opening_zero. exact Hc.
+Qed.
+Print Assumptions compute_mask_within_largest_component.
+
+(* non-vacuity (2-D for brevity): a 3x3 block in the array corner and a 1x3 rod; one opening removes the
+   rod and - because outside the array counts as 0 - reduces the block to the cross around its centre *)
+Example opening_example :
+  opening_flat [4; 5] 1 [true; true; true; false; false;
+                         true; true; true; false; true;
+                         true; true; true; false; true;
+                         false; false; false; false; true]
+  = [false; true; false; false; false;
+     true; true; true; false; false;
+     false; true; false; false; false;
+     false; false; false; false; false].
+Proof. vm_compute. reflexivity. Qed.
